@@ -17,6 +17,7 @@ import (
 	"os"
 	"sort"
 	"strconv"
+	"strings"
 	"time"
 
 	"verif/harness/internal/vtrace"
@@ -44,7 +45,7 @@ type newIn struct {
 type stats struct {
 	runs, ok, cancelled, timeout, other, hung, noCompletion, events, viol, traces int
 	distinct                                                                      *vtrace.Distinct
-	hardcap                                                                       int
+	hardcap, resumed, duo                                                         int
 }
 
 func (st *stats) count(r *run) {
@@ -77,6 +78,8 @@ func (st *stats) emit() {
 	vtrace.Stat("violations", st.viol)
 	vtrace.Stat("traces", st.traces)
 	vtrace.Stat("distinct", st.distinct.Len())
+	vtrace.Stat("resumed", st.resumed)
+	vtrace.Stat("duo", st.duo)
 }
 
 func writeTrace(w *vtrace.Writer, r *run) {
@@ -250,7 +253,7 @@ func hasCancel(s []act) bool {
 
 // ---------------------------------------------------------------- seeded random runs at larger sizes
 
-func randomShape(rng *rand.Rand, name string) (*shape, error) {
+func randomShape(rng *rand.Rand, name string, big bool) (*shape, error) {
 	nk := 2 + rng.Intn(30)
 	alphabet := []byte{0x01, 0x02, 0x11, 0x12, 0x21, 0xa1}
 	mk := func() string {
@@ -274,7 +277,12 @@ func randomShape(rng *rand.Rand, name string) (*shape, error) {
 			continue
 		}
 		seen[k] = true
-		kv = append(kv, []string{k, vals[rng.Intn(len(vals))]})
+		v := vals[rng.Intn(len(vals))]
+		if big && rng.Intn(8) == 0 {
+			// a value of ~100 KB: an answer of the resolver (256 KB) holds two such leaves at most
+			v = strings.Repeat(v, 100000+rng.Intn(1000))
+		}
+		kv = append(kv, []string{k, v})
 	}
 	if len(kv) == 0 {
 		kv = append(kv, []string{"01", "a"})
@@ -327,7 +335,7 @@ func record(seed int64, runs int, traceOut string, maxTraces int, netMode bool) 
 	rng := rand.New(rand.NewSource(seed))
 	st := &stats{distinct: vtrace.NewDistinct()}
 	for i := 0; i < runs; i++ {
-		sh, err := randomShape(rng, fmt.Sprintf("rnd%d", i))
+		sh, err := randomShape(rng, fmt.Sprintf("rnd%d", i), netMode)
 		if err != nil {
 			vtrace.Broken("random shape: " + err.Error())
 			return
@@ -343,8 +351,12 @@ func record(seed int64, runs int, traceOut string, maxTraces int, netMode bool) 
 				}
 			}
 		}
-		na := rng.Intn(3 * n)
 		horizon := 6*sh.nTarget + 5
+		if sh.spec.Froot != 0 && !netMode && rng.Intn(6) == 0 {
+			duo(rng, sh, st, w, maxTraces, horizon)
+			continue
+		}
+		na := rng.Intn(3 * n)
 		for j := 0; j < na; j++ {
 			a := act{At: rng.Intn(horizon), Kind: "deliver", X: rng.Intn(n + 1)}
 			if rng.Intn(10) == 0 {
@@ -397,12 +409,75 @@ func record(seed int64, runs int, traceOut string, maxTraces int, netMode bool) 
 		if i < 2 {
 			vtrace.Sample("C05", oneLine(r))
 		}
+		if r.res != "ok" && rng.Intn(2) == 0 {
+			// resumption: a new syncer (either kind) continues on the DB the interrupted run left behind
+			r2 := &run{sh: sh, cap: r.cap, rng: rng, netMode: netMode, tail: "honest", dbInit: r.dbm}
+			r2.algo = []string{"double", "single"}[rng.Intn(2)]
+			r2.db0 = r.dbKeys()
+			for j := 0; j < rng.Intn(n+1); j++ {
+				r2.sched = append(r2.sched, act{At: rng.Intn(horizon), Kind: "deliver", X: rng.Intn(n + 1)})
+			}
+			r2.start()
+			v2 := r2.finish()
+			st.count(r2)
+			st.resumed++
+			if v2 != nil {
+				report(st, r2, v2)
+			}
+			if r2.res != "ok" {
+				st.noCompletion++
+			}
+			if st.traces < maxTraces && n <= 60 {
+				writeTrace(w, r2)
+				st.traces++
+			}
+		}
 	}
 	if err = w.Close(); err != nil {
 		vtrace.Broken(err.Error())
 	}
 	vtrace.Stat("trace_events", w.N)
 	st.emit()
+}
+
+// duo: two syncers run concurrently (two goroutines), one per trie of the shape, on ONE intercepted-nodes cache and
+// ONE destination DB -- what userAccountsSyncer does with data tries. For each of them the other one is part of
+// the environment: it takes entries out of the cache (Evict) and stores nodes in the DB (Store).
+func duo(rng *rand.Rand, sh *shape, st *stats, w *vtrace.Writer, maxTraces int, horizon int) {
+	n := len(sh.nodes)
+	algos := []string{"double", "single"}
+	mk := func(view *shape) *run {
+		r := &run{sh: view, algo: algos[rng.Intn(2)], cap: []int{1, 2, 3, 100}[rng.Intn(4)], rng: rng, tail: "honest"}
+		for j := 0; j < rng.Intn(n+1); j++ {
+			r.sched = append(r.sched, act{At: rng.Intn(horizon), Kind: "deliver", X: rng.Intn(n + 1)})
+		}
+		return r
+	}
+	a := mk(sh)
+	a.prepare()
+	b := mk(sh.otherView())
+	b.mu, b.cache, b.rec, b.proc, b.dbm = a.mu, a.cache, a.rec, a.proc, a.dbm
+	a.peer, b.peer = b, a
+	done := make(chan struct{}, 2)
+	for _, r := range []*run{a, b} {
+		go func(r *run) { r.start(); done <- struct{}{} }(r)
+	}
+	<-done
+	<-done
+	for _, r := range []*run{a, b} {
+		st.count(r)
+		st.duo++
+		if v := r.finish(); v != nil {
+			report(st, r, v)
+		}
+		if r.res != "ok" {
+			st.noCompletion++
+		}
+		if st.traces < maxTraces && n <= 60 {
+			writeTrace(w, r)
+			st.traces++
+		}
+	}
 }
 
 func main() {
